@@ -14,9 +14,15 @@ open DI.Py
 def DataFrame_count (truth : Term → Bool) : Out :=
   Out.ret [] (Term.app ".aggregate" [(Term.app ".group_by" [(Term.app ".copy" [(Term.sym "self")]), (Term.app "*" [(Term.sym "colnames")])]), (Term.app "=n" [(Term.app "dataiter.count" [])])])
 
+/-- the decorators of dataiter/data_frame.py: DataFrame.count, outermost first -/
+def DataFrame_count_decorators : List String := []
+
 /-- dataiter/data_frame.py: DataFrame.group_by (sha256 of the function source: 2edbc614a7896e6a) -/
 def DataFrame_group_by (truth : Term → Bool) : Out :=
   let eff0 : Term := (Term.app "setattr" [(Term.sym "self"), (Term.sym "_group_colnames"), (Term.app "tuple" [(Term.sym "colnames")])]);
   Out.ret [eff0] (Term.sym "self")
+
+/-- the decorators of dataiter/data_frame.py: DataFrame.group_by, outermost first -/
+def DataFrame_group_by_decorators : List String := []
 
 end DI.Gen
